@@ -653,13 +653,14 @@ Definition run_action (id : nat) (next : option pstate) : LM unit :=
                                      end)
                                     (modify (fun w => w <| killing := None |>))
                         end) ;;
-          (* with capture_exceptions(self): self.set_result(...) — the action may have been cancelled meanwhile *)
+          (* the outcome goes into the action future unless the action was cancelled while it ran (a request made
+             from inside it, e.g. by a listener, replaced it): `if not self.done(): self.set_result(...)` *)
           w' <- get ;;
           match get_act w' id with
           | Some a' =>
               match a_fut a' with
               | AfPending => set_act_fut id (match r with Ok b => AfVal b | Err e => AfExn e end)
-              | _ => raise EInvalidState
+              | _ => ret tt
               end
           | None => raise EIndex
           end
